@@ -10,10 +10,11 @@ from mirsym.models import val_eq
 
 class Determinism(PipelineBase):
     name='C13.determinism'
-    def __init__(self,nlinks=2,two_steps=False,**kw):
-        PipelineBase.__init__(self,**kw); self.nlinks=nlinks; self.two_steps=two_steps
+    def __init__(self,nlinks=2,two_steps=False,all_valid=False,**kw):
+        PipelineBase.__init__(self,**kw); self.nlinks=nlinks; self.two_steps=two_steps; self.all_valid=all_valid
+        if all_valid: self.name='C13.determinism_%dlinks_all_valid'%nlinks
         self.bounds={'steps':2 if two_steps else 1,'links_per_step':nlinks,'threshold':'any u32','materials/products':'one path each, free digest byte per link (links may differ)',
-                     'signature_validity':'free per link','hash_map_iteration':'run 1 insertion order, run 2 every permutation (all maps)','directory_enumeration':'glob returns sorted paths (as the glob crate documents); not varied'}
+                     'signature_validity':'free per link','hash_map_iteration':'run 1 insertion order, run 2 every permutation (all maps)' if not all_valid else 'run 1 insertion order, run 2 every rotation and the reversal of every map (each entry is first and last in some order)','directory_enumeration':'glob returns sorted paths (as the glob crate documents); not varied'}
         self.witnesses=['both_ok','both_err']
     def setup(self,eng,tier):
         PipelineBase.setup(self,eng,tier)
@@ -23,7 +24,7 @@ class Determinism(PipelineBase):
             run.hash_order='fixed'
             try: r1=('ret',eng.call_fn(run,body,a1))
             except Panic as p: r1=('panic',p.site)
-            run.hash_order='all'
+            run.hash_order='rot' if self.all_valid else 'all'
             try: r2=('ret',eng.call_fn(run,body,a2))
             except Panic as p: r2=('panic',p.site)
             return (r1,r2)
@@ -36,10 +37,10 @@ class Determinism(PipelineBase):
             sname='s%d'%si
             thr=Int(32,False,z3.BitVec('thr%d'%si,32))
             for i in range(n):
-                mats={'a':[z3.BitVec('dm_%d_%d'%(si,i),8)]}; prods={'p':[z3.BitVec('dp_%d_%d'%(si,i),8)]}
+                mats={'a':[1] if self.all_valid else [z3.BitVec('dm_%d_%d'%(si,i),8)]}; prods={'p':[z3.BitVec('dp_%d_%d'%(si,i),8)]}
                 mb=z3.BitVec('mb_%d_%d'%(si,i),8)
                 if first: run.add(z3.ULE(mb,n))
-                sd=SigD(i,mb,z3.Bool('in_%d_%d'%(si,i)),z3.Bool('ov_%d_%d'%(si,i)))
+                sd=SigD(i,i) if self.all_valid else SigD(i,mb,z3.Bool('in_%d_%d'%(si,i)),z3.Bool('ov_%d_%d'%(si,i)))
                 dirs[()].append(FileD(sname,i,BlockD('link',LinkD(sname,mats,prods),[sd])))
             steps.append(StepD(sname,thr,list(range(n))))
         lay=LayoutD(list(range(n)),steps)
